@@ -1,28 +1,41 @@
-"""python -m mc.replay <replay.json>: re-executes a violation's snippet against the real library,
-without the explorer.  Exit 1 if the snippet still fails (defect present), 0 if it runs clean."""
+"""python -m mc.replay <replay.json>: re-executes a violation's snippet against the real library in a
+fresh interpreter, without the explorer and without the set-order seam, under the PYTHONHASHSEED
+recorded in the file.  Exit 1 if the snippet still fails (defect present), 0 if it runs clean."""
 import json
+import os
+import subprocess
 import sys
-import traceback
+
+CODE = r"""
+import json, sys, traceback
+from mc import env
+rec = json.load(open(sys.argv[1], encoding='utf-8'))
+ns = dict(env.NS)
+try:
+    exec(rec['code'], ns)
+except BaseException:
+    traceback.print_exc()
+    print('REPLAY: still fails')
+    sys.exit(1)
+print('REPLAY: runs clean')
+"""
 
 
 def main():
-    from . import env
-    rec = json.load(open(sys.argv[1], encoding='utf-8'))
+    path = sys.argv[1]
+    rec = json.load(open(path, encoding='utf-8'))
     print('property :', rec.get('property'))
     print('key      :', rec.get('key'))
     print('what     :', rec.get('what'))
+    print('hashseed :', rec.get('hashseed', 0))
     print('--- snippet ---')
     print(rec['code'])
     print('---------------')
-    ns = dict(env.NS)
-    try:
-        exec(rec['code'], ns)
-    except BaseException:  # noqa: BLE001
-        traceback.print_exc()
-        print('REPLAY: still fails')
-        return 1
-    print('REPLAY: runs clean')
-    return 0
+    here = os.path.dirname(os.path.dirname(os.path.abspath(__file__)))
+    e = dict(os.environ)
+    e.update({'PYTHONHASHSEED': str(rec.get('hashseed', 0)), 'PREGEX_VERIF_VSET': '0', 'PYTHONPATH': here,
+              'PYTHONWARNINGS': 'ignore', 'PYTHONDONTWRITEBYTECODE': '1'})
+    return subprocess.run([sys.executable, '-c', CODE, path], env=e, cwd=here).returncode
 
 
 if __name__ == '__main__':
